@@ -140,14 +140,17 @@ Qed.
 
 (* the whole finite enumeration, both languages, both modes, all three tables *)
 Lemma finite_enum_check :
-  forallb (fun lg => forallb (fun pk => forallb (check_opt true pk [] lg) finite_opts) [false; true])
+  forallb (fun lg => forallb (fun dfix => forallb (fun pk => forallb (check_opt true dfix pk [] lg) finite_opts)
+                                                  [false; true]) [false; true])
           [LangC; LangCxx] = true.
 Proof. vm_compute. reflexivity. Qed.
 
-Lemma finite_opts_accepted lg pk o : In o finite_opts -> check_opt true pk [] lg o = true.
+Lemma finite_opts_accepted lg dfix pk o : In o finite_opts -> check_opt true dfix pk [] lg o = true.
 Proof.
   intros Ho. pose proof finite_enum_check as H. rewrite forallb_forall in H.
   specialize (H lg (lang_in lg)). rewrite forallb_forall in H.
+  assert (Hd : In dfix [false; true]) by (destruct dfix; cbn; auto).
+  specialize (H dfix Hd). rewrite forallb_forall in H.
   assert (Hp : In pk [false; true]) by (destruct pk; cbn; auto).
   specialize (H pk Hp). rewrite forallb_forall in H. exact (H o Ho).
 Qed.
@@ -156,6 +159,7 @@ Qed.
 
 Section Param.
 Variable lg : lang.
+Variable dfix : bool.
 Variable pk : bool.
 Variable defaults : list str.
 
@@ -183,7 +187,7 @@ Proof. intros H. unfold single, accepted1. cbn. exact H. Qed.
 Lemma two_word_arg w a : two_word w = true -> nonempty_text a = true -> accepted_args lg [w; a] = true.
 Proof. intros H1 H2. cbn [accepted_args]. rewrite H1, H2. reflexivity. Qed.
 
-Lemma cc_flag1_accepted o fl : wf_option lg o = true -> cc_flag1 true pk defaults o = Ok fl ->
+Lemma cc_flag1_accepted o fl : wf_option lg o = true -> cc_flag1 true dfix pk defaults o = Ok fl ->
   accepted_args lg fl = true.
 Proof.
   intros Hwf H. destruct o; cbn [cc_flag1 wf_option] in *; try discriminate; inversion H; subst; clear H.
@@ -196,7 +200,9 @@ Proof.
     apply andb_true_iff in Hwf as [Hn Hv]. pose proof (ident_words _ Hn) as Hw.
     assert (Hbare : accepted_args lg [STR "-D" ++ n] = true).
     { apply accepted_single, D_single. unfold define_ok. rewrite (split_eq_words _ Hw). cbn. now rewrite Hn. }
-    destruct v as [[|c v]|]; inversion H1; subst; try exact Hbare.
+    destruct v as [[|c v]|]; [destruct dfix| |]; inversion H1; subst; try exact Hbare.
+    { apply accepted_single. change (STR "-D" ++ n ++ STR "=") with (STR "-D" ++ (n ++ c_eq :: [])).
+      apply D_single. unfold define_ok. rewrite (split_eq_words_eq _ _ Hw). cbn [fst snd]. now rewrite Hn. }
     apply accepted_single.
     change (STR "-D" ++ n ++ STR "=" ++ c :: v) with (STR "-D" ++ (n ++ c_eq :: c :: v)).
     apply D_single. unfold define_ok. rewrite (split_eq_words_eq _ _ Hw). cbn [fst snd]. now rewrite Hn, Hv.
@@ -213,11 +219,11 @@ Proof.
 Qed.
 
 Lemma cc_flags_accepted l : Forall (fun o => wf_option lg o = true) l ->
-  res_accepted lg (cc_flags true pk defaults l) = true.
+  res_accepted lg (cc_flags true dfix pk defaults l) = true.
 Proof.
   induction 1 as [|o r Ho Hr IH]; [reflexivity|]. cbn [cc_flags].
-  destruct (cc_flag1 true pk defaults o) as [f|] eqn:E1; [|reflexivity].
-  destruct (cc_flags true pk defaults r) as [fr|]; [|reflexivity].
+  destruct (cc_flag1 true dfix pk defaults o) as [f|] eqn:E1; [|reflexivity].
+  destruct (cc_flags true dfix pk defaults r) as [fr|]; [|reflexivity].
   cbn in *. apply accepted_app_true; [eapply cc_flag1_accepted; eauto|exact IH].
 Qed.
 
@@ -339,8 +345,8 @@ Qed.
 End Param.
 
 (* the statement of C16_accepted *)
-Theorem accepted_all lg pk defaults l : Forall (fun o => wf_option lg o = true) l ->
-  res_accepted lg (cc_flags true pk defaults l) = true /\
+Theorem accepted_all lg dfix pk defaults l : Forall (fun o => wf_option lg o = true) l ->
+  res_accepted lg (cc_flags true dfix pk defaults l) = true /\
   res_accepted lg (ld_flags true pk l) = true /\
   res_accepted lg (ld_lib_flags pk l) = true.
 Proof.
@@ -362,13 +368,13 @@ Definition link_side (o : opt) : bool :=
   | _ => true
   end.
 
-Lemma cc_flags_total fixed pk defaults l : forallb compile_side l = true ->
-  exists fl, cc_flags fixed pk defaults l = Ok fl.
+Lemma cc_flags_total fixed dfix pk defaults l : forallb compile_side l = true ->
+  exists fl, cc_flags fixed dfix pk defaults l = Ok fl.
 Proof.
   induction l as [|o r IH]; [now exists []|]. cbn [forallb cc_flags]. intros H.
   apply andb_true_iff in H as [H1 H2]. destruct (IH H2) as [fr ->].
   destruct o; try discriminate; cbn [cc_flag1]; try (eexists; reflexivity).
-  destruct v as [[|c v]|]; eexists; reflexivity.
+  destruct v as [[|c v]|]; [destruct dfix| |]; eexists; reflexivity.
 Qed.
 
 Lemma ld_flags_total fixed pk l : forallb link_side l = true -> exists fl, ld_flags fixed pk l = Ok fl.
@@ -384,47 +390,47 @@ Qed.
 (* the table as originally written leaves the grammar *)
 Lemma accepted_refuted : exists lg o,
   wf_option lg o = true /\ compile_side o = true /\ link_side o = true /\
-  res_accepted lg (cc_flags false false [] [o]) = false /\
+  res_accepted lg (cc_flags false false false [] [o]) = false /\
   res_accepted lg (ld_flags false false [o]) = false.
 Proof. exists LangC, (OOptimize [OSize]). vm_compute. auto. Qed.
 
 (* ------------------------------------------------------------------ merge order *)
 
-Lemma cc_flags_app fixed pk defaults a b fa fb :
-  cc_flags fixed pk defaults a = Ok fa -> cc_flags fixed pk defaults b = Ok fb ->
-  cc_flags fixed pk defaults (a ++ b) = Ok (fa ++ fb).
+Lemma cc_flags_app fixed dfix pk defaults a b fa fb :
+  cc_flags fixed dfix pk defaults a = Ok fa -> cc_flags fixed dfix pk defaults b = Ok fb ->
+  cc_flags fixed dfix pk defaults (a ++ b) = Ok (fa ++ fb).
 Proof.
   revert fa. induction a as [|o r IH]; intros fa Ha Hb.
   - inversion Ha; subst. exact Hb.
-  - cbn [app cc_flags] in *. destruct (cc_flag1 fixed pk defaults o) as [f|]; [|discriminate].
-    destruct (cc_flags fixed pk defaults r) as [fr|] eqn:E; [|discriminate].
+  - cbn [app cc_flags] in *. destruct (cc_flag1 fixed dfix pk defaults o) as [f|]; [|discriminate].
+    destruct (cc_flags fixed dfix pk defaults r) as [fr|] eqn:E; [|discriminate].
     inversion Ha; subst. rewrite (IH fr eq_refl Hb). now rewrite app_assoc.
 Qed.
 
-Theorem cc_merge_order fixed defaults cmd always envf gopts internal user input output deps argv :
-  cc_final fixed defaults cmd always envf gopts internal user input output deps = Ok argv ->
+Theorem cc_merge_order fixed dfix defaults cmd always envf gopts internal user input output deps argv :
+  cc_final fixed dfix defaults cmd always envf gopts internal user input output deps = Ok argv ->
   exists gf tf tail,
-    cc_flags fixed false defaults gopts = Ok gf /\
-    cc_flags fixed false defaults (ol_add (ol_make internal) user) = Ok tf /\
+    cc_flags fixed dfix false defaults gopts = Ok gf /\
+    cc_flags fixed dfix false defaults (ol_add (ol_make internal) user) = Ok tf /\
     argv = cmd ++ always ++ envf ++ gf ++ tf ++ STR "-c" :: input :: tail.
 Proof.
   unfold cc_final. intros H.
-  destruct (cc_flags fixed false defaults gopts) as [gf|]; [|discriminate].
-  destruct (cc_flags fixed false defaults (ol_add (ol_make internal) user)) as [tf|]; [|discriminate].
+  destruct (cc_flags fixed dfix false defaults gopts) as [gf|]; [|discriminate].
+  destruct (cc_flags fixed dfix false defaults (ol_add (ol_make internal) user)) as [tf|]; [|discriminate].
   inversion H; subst. exists gf, tf. eexists. split; [reflexivity|]. split; [reflexivity|].
   rewrite <- !app_assoc. reflexivity.
 Qed.
 
 (* consequence: every flag of the per-target options comes after every environment and global flag *)
-Theorem cc_target_last fixed defaults cmd always envf gopts internal user input output deps argv x y :
-  cc_final fixed defaults cmd always envf gopts internal user input output deps = Ok argv ->
-  forall gf tf, cc_flags fixed false defaults gopts = Ok gf ->
-    cc_flags fixed false defaults (ol_add (ol_make internal) user) = Ok tf ->
+Theorem cc_target_last fixed dfix defaults cmd always envf gopts internal user input output deps argv x y :
+  cc_final fixed dfix defaults cmd always envf gopts internal user input output deps = Ok argv ->
+  forall gf tf, cc_flags fixed dfix false defaults gopts = Ok gf ->
+    cc_flags fixed dfix false defaults (ol_add (ol_make internal) user) = Ok tf ->
     In x (envf ++ gf) -> In y tf ->
     exists p m s, argv = p ++ x :: m ++ y :: s.
 Proof.
   intros H gf tf Hg Ht Hx Hy.
-  destruct (cc_merge_order _ _ _ _ _ _ _ _ _ _ _ _ H) as [gf' [tf' [tail [Hg' [Ht' ->]]]]].
+  destruct (cc_merge_order _ _ _ _ _ _ _ _ _ _ _ _ _ H) as [gf' [tf' [tail [Hg' [Ht' ->]]]]].
   rewrite Hg in Hg'. rewrite Ht in Ht'. inversion Hg'; inversion Ht'; subst.
   apply in_split in Hx as [x1 [x2 Ex]]. apply in_split in Hy as [y1 [y2 ->]].
   exists (cmd ++ always ++ x1), (x2 ++ y1), (y2 ++ STR "-c" :: input :: tail).
@@ -556,28 +562,28 @@ Proof. induction a; constructor; auto. Qed.
 Lemma subseq_nil {A} (a : list A) : subseq [] a.
 Proof. induction a; constructor; auto. Qed.
 
-Lemma cc_flags_subseq fixed pk defaults a b : subseq a b -> forall fb, cc_flags fixed pk defaults b = Ok fb ->
-  exists fa, cc_flags fixed pk defaults a = Ok fa /\ subseq fa fb.
+Lemma cc_flags_subseq fixed dfix pk defaults a b : subseq a b -> forall fb, cc_flags fixed dfix pk defaults b = Ok fb ->
+  exists fa, cc_flags fixed dfix pk defaults a = Ok fa /\ subseq fa fb.
 Proof.
   induction 1 as [|x a b H IH|x a b H IH]; intros fb Hb.
   - inversion Hb; subst. exists []. split; [reflexivity|constructor].
-  - cbn [cc_flags] in *. destruct (cc_flag1 fixed pk defaults x) as [f|]; [|discriminate].
-    destruct (cc_flags fixed pk defaults b) as [fr|]; [|discriminate]. inversion Hb; subst.
+  - cbn [cc_flags] in *. destruct (cc_flag1 fixed dfix pk defaults x) as [f|]; [|discriminate].
+    destruct (cc_flags fixed dfix pk defaults b) as [fr|]; [|discriminate]. inversion Hb; subst.
     destruct (IH fr eq_refl) as [fa [-> Hs]]. exists (f ++ fa). split; [reflexivity|].
     apply subseq_app; [apply subseq_refl|exact Hs].
-  - cbn [cc_flags] in Hb. destruct (cc_flag1 fixed pk defaults x) as [f|]; [|discriminate].
-    destruct (cc_flags fixed pk defaults b) as [fr|]; [|discriminate]. inversion Hb; subst.
+  - cbn [cc_flags] in Hb. destruct (cc_flag1 fixed dfix pk defaults x) as [f|]; [|discriminate].
+    destruct (cc_flags fixed dfix pk defaults b) as [fr|]; [|discriminate]. inversion Hb; subst.
     destruct (IH fr eq_refl) as [fa [-> Hs]]. exists fa. split; [reflexivity|].
     change fa with ([] ++ fa). apply subseq_app; [apply subseq_nil|exact Hs].
 Qed.
 
-Theorem dedup_flags_subseq fixed pk defaults l fl : cc_flags fixed pk defaults l = Ok fl ->
-  exists fd, cc_flags fixed pk defaults (ol_make l) = Ok fd /\ subseq fd fl.
+Theorem dedup_flags_subseq fixed dfix pk defaults l fl : cc_flags fixed dfix pk defaults l = Ok fl ->
+  exists fd, cc_flags fixed dfix pk defaults (ol_make l) = Ok fd /\ subseq fd fl.
 Proof. apply cc_flags_subseq, dedup_subseq. Qed.
 
 (* but the LAST occurrence is what is dropped: a re-asserted option loses its place *)
 Lemma dedup_last_refuted : exists l fa fb,
-  cc_flags true false [] l = Ok fa /\ cc_flags true false [] (ol_make l) = Ok fb /\
+  cc_flags true false false [] l = Ok fa /\ cc_flags true false false [] (ol_make l) = Ok fb /\
   last fa [] = STR "-O3" /\ last fb [] = STR "-O0".
 Proof.
   exists [OOptimize [OSpeed]; OOptimize [ODisable]; OOptimize [OSpeed]]. eexists. eexists.
@@ -586,9 +592,9 @@ Qed.
 
 (* ------------------------------------------------------------------ effect of define (R: macro_of_flag) *)
 
-Theorem define_effect fixed pk defaults n v :
+Theorem define_effect fixed dfix pk defaults n v :
   is_ident n = true -> v <> [] ->
-  exists f, cc_flag1 fixed pk defaults (ODefine n (Some v)) = Ok [f] /\ macro_of_flag f = Some (n, v).
+  exists f, cc_flag1 fixed dfix pk defaults (ODefine n (Some v)) = Ok [f] /\ macro_of_flag f = Some (n, v).
 Proof.
   intros Hn Hv. destruct v as [|c v]; [congruence|]. eexists. split; [reflexivity|].
   change (STR "-D" ++ n ++ STR "=" ++ c :: v) with (STR "-D" ++ (n ++ c_eq :: c :: v)).
@@ -597,9 +603,9 @@ Proof.
   cbv beta iota. now rewrite (split_eq_words_eq _ _ (ident_words _ Hn)).
 Qed.
 
-Theorem define_effect_bare fixed pk defaults n :
+Theorem define_effect_bare fixed dfix pk defaults n :
   is_ident n = true ->
-  exists f, cc_flag1 fixed pk defaults (ODefine n None) = Ok [f] /\ macro_of_flag f = Some (n, STR "1").
+  exists f, cc_flag1 fixed dfix pk defaults (ODefine n None) = Ok [f] /\ macro_of_flag f = Some (n, STR "1").
 Proof.
   intros Hn. eexists. split; [reflexivity|]. unfold macro_of_flag.
   change (strip_prefix (STR "-D") (STR "-D" ++ n)) with (Some n).
@@ -608,6 +614,18 @@ Qed.
 
 (* an explicitly empty value is translated like an absent one: the macro becomes 1, not empty *)
 Lemma define_empty_refuted : exists n f,
-  is_ident n = true /\ cc_flag1 true false [] (ODefine n (Some [])) = Ok [f] /\
+  is_ident n = true /\ cc_flag1 true false false [] (ODefine n (Some [])) = Ok [f] /\
   macro_of_flag f = Some (n, STR "1").
 Proof. exists (STR "E"). eexists. vm_compute. auto. Qed.
+
+(* with the repaired translation (dfix) the effect holds for every value, the empty one included *)
+Theorem define_effect_fixed fixed pk defaults n v :
+  is_ident n = true ->
+  exists f, cc_flag1 fixed true pk defaults (ODefine n (Some v)) = Ok [f] /\ macro_of_flag f = Some (n, v).
+Proof.
+  intros Hn. destruct v as [|c v].
+  - eexists. split; [reflexivity|]. unfold macro_of_flag.
+    change (strip_prefix (STR "-D") (STR "-D" ++ n ++ STR "=")) with (Some (n ++ c_eq :: [])).
+    cbv beta iota. now rewrite (split_eq_words_eq _ _ (ident_words _ Hn)).
+  - apply define_effect; [exact Hn|discriminate].
+Qed.
